@@ -9,6 +9,7 @@ From Atlas Require Import Base.Bytes Diff.Schema Diff.DiffModel Diff.DiffSqlite
   Sqlite.PlanModel Sqlite.EngineModel Sqlite.InspectModel Sqlite.ReverseModel Sqlite.ReverseProofs
   Sqlite.ReverseDropProofs Sqlite.ReverseStaticProofs
   Sqlite.ConvergeDefs Sqlite.ConvergeStep Sqlite.ConvergeSupported Sqlite.ReverseDropTableProofs.
+From Atlas Require Plan.SortModel Lex.DownDetach.
 Import ListNotations.
 
 (** ** 1. Up then down restores the start state (SQLite: M-SQLITE planner + abstract engine)
@@ -545,6 +546,49 @@ Example C17_alter_kinds_nonvacuous :
   (* TYPE + DROP EXPRESSION: none *)
   alterTable_postgres [mkArm KOther [110]%N; mkArm (KModCol (mkKinds true false false false true)) [99]%N] = None.
 Proof. vm_compute. auto. Qed.
+
+(** ** 2a''. The down of a plan that went through DetachCycles (MySQL, TiDB, PostgreSQL planners)
+
+    A change set with a reference cycle is rewritten by [detachReferences] (C04's model, Plan/SortModel.v):
+    every change is split in a piece planned first and a piece deferred.  The reverse of a piece re-creates
+    the foreign keys the piece drops and drops the ones it creates (Lex/DownDetach.v: [up_adds], [up_drops]).
+    Key conservation, for every change list: the pieces create exactly the keys of the original changes,
+    each once -- so the down of created tables drops every key once ... *)
+Theorem C17_detach_keys_created_once :
+  forall changes : list SortModel.change,
+  Permutation.Permutation (flat_map DownDetach.up_adds (SortModel.detachReferences changes))
+                          (flat_map DownDetach.up_adds changes).
+Proof. exact DownDetach.detach_adds_lemma. Qed.
+Print Assumptions C17_detach_keys_created_once.
+
+(** ... and the pieces drop exactly the keys of the original changes, each once -- so the down re-creates
+    every key of a dropped table once (the reverse CREATE TABLE does not carry a key that the reverse of the
+    preceding ALTER re-adds, and none is lost) -- EXCEPT for a dropped table that has both external keys and
+    a self reference: its copy is dropped with no key at all ([t.ForeignKeys = nil]) while the ALTER drops
+    only the external ones (finding C17-detach-drop-loses-self-fk). *)
+Theorem C17_detach_keys_once_except :
+  forall changes : list SortModel.change,
+  (forall c, In c changes -> DownDetach.drop_ok c) ->
+  Permutation.Permutation (flat_map DownDetach.up_drops (SortModel.detachReferences changes))
+                          (flat_map DownDetach.up_drops changes).
+Proof. exact DownDetach.detach_drops_lemma. Qed.
+Print Assumptions C17_detach_keys_once_except.
+
+(** the literal statement is false: a(a -> a, a -> b), b(b -> a), both dropped -- DetachCycles takes the
+    detach path and the pieces drop (their reverses re-create) two keys of the three *)
+Theorem C17_detach_keys_once_refuted :
+  exists changes : list SortModel.change,
+  SortModel.DetachCycles changes = SortModel.DCOk (SortModel.detachReferences changes) /\
+  ~ Permutation.Permutation (flat_map DownDetach.up_drops (SortModel.detachReferences changes))
+                            (flat_map DownDetach.up_drops changes).
+Proof.
+  set (a := SortModel.mkT 1 1 1). set (b := SortModel.mkT 2 1 2).
+  exists [SortModel.DropTable a [SortModel.mkFK 1 a a; SortModel.mkFK 2 a b];
+          SortModel.DropTable b [SortModel.mkFK 3 b a]].
+  split; [vm_compute; reflexivity|].
+  intros P. apply Permutation.Permutation_length in P. vm_compute in P. discriminate P.
+Qed.
+Print Assumptions C17_detach_keys_once_refuted.
 
 (** ** 2b. The flag of the SQLite planner (sql/sqlite/migrate.go: PlanChanges)
 
